@@ -164,10 +164,11 @@ fn collect_peers_cids_from_trace<'data>(
                 let cid = call.get_cid();
                 if let Some(cid) = cid {
                     // TODO refactor
+                    // CidInfo::verify checks references between the stores only, not from the trace
                     let service_result = cid_info
                         .service_result_store
                         .get(cid)
-                        .expect(CANNOT_HAPPEN_IN_VERIFIED_CID_STORE);
+                        .ok_or_else(|| DataVerifierError::TraceCidNotFound(cid.get_inner()))?;
                     let tetraplet = cid_info
                         .tetraplet_store
                         .get(&service_result.tetraplet_cid)
@@ -182,7 +183,7 @@ fn collect_peers_cids_from_trace<'data>(
                 let canon_result = cid_info
                     .canon_result_store
                     .get(cid)
-                    .expect(CANNOT_HAPPEN_IN_VERIFIED_CID_STORE);
+                    .ok_or_else(|| DataVerifierError::TraceCidNotFound(cid.get_inner()))?;
                 let tetraplet = cid_info
                     .tetraplet_store
                     .get(&canon_result.tetraplet)
